@@ -29,10 +29,23 @@ def effective(fit, iterative):
     return [m[0, 0], m[0, 1], m[1, 0], m[1, 1], s[0], s[1]]
 
 
+def _typed(a, dtype):
+    """array of the requested dtype if that is value-preserving, else float64"""
+    f = np.array(a, dtype=float)
+    if dtype is not None:
+        t = f.astype(dtype)
+        if np.array_equal(t.astype(float), f):
+            return t
+    return f
+
+
 def run_impl(lf, pr, iterative):
-    xy, uv = np.array(pr['xy'], dtype=float).reshape(-1, 2), np.array(pr['uv'], dtype=float).reshape(-1, 2)
-    wxy = None if pr['wxy'] is None else np.array(pr['wxy'], dtype=float)
-    wuv = None if pr['wuv'] is None else np.array(pr['wuv'], dtype=float)
+    # pr['dtypes'] = (coordinate dtype, weight dtype): exercised with integer / float32 inputs whenever the values
+    # are exactly representable in that type (the result must not depend on the caller's dtype)
+    cdt, wdt = pr.get('dtypes', (None, None))
+    xy, uv = _typed(pr['xy'], cdt).reshape(-1, 2), _typed(pr['uv'], cdt).reshape(-1, 2)
+    wxy = None if pr['wxy'] is None else _typed(pr['wxy'], wdt)
+    wuv = None if pr['wuv'] is None else _typed(pr['wuv'], wdt)
     try:
         if iterative:
             fit = lf.iter_linear_fit(xy, uv, wxy, wuv, fitgeom=pr['geom'], nclip=0)
@@ -53,7 +66,10 @@ def gen_case(rng, t):
     geom = G.GEOMS[t % 4]
     stream = ['valid', 'valid', 'valid', 'valid', 'valid', 'special', 'degenerate', 'malformed'][(t // 4) % 8]
     if stream == 'valid':
-        pr = G.problem(rng, geom, outliers=rng.choice([0, 0, 0, 1, 3]))
+        # weight mode and input dtypes cycle systematically so that every (fitgeom, weight mode, dtype) combination
+        # occurs in every run
+        pr = G.problem(rng, geom, outliers=rng.choice([0, 0, 0, 1, 3]),
+                       wmode=['none', 'xy', 'uv', 'both'][(t // 32) % 4])
     elif stream == 'special':
         # noise-free integer lattices under special-angle members of the family (finding F1/F12 inputs)
         n = rng.choice([2, 3, 5, 9]) if geom != 'general' else rng.choice([3, 5, 9])
@@ -88,6 +104,13 @@ def gen_case(rng, t):
                 pr['wuv'][k] = 1.0
         pr['style'] = kind
     pr['stream'] = stream
+    pr['dtypes'] = ([(None, None)] * 3 + [(None, np.int64), (np.float32, np.float32), (np.int64, np.int32),
+                                          (None, np.float32)])[(t // 4) % 7]
+    if pr['dtypes'][1] in (np.int64, np.int32):
+        # integer-typed weight arrays: make the weights integral so that the integer dtype is really used
+        for key in ('wxy', 'wuv'):
+            if pr[key] is not None:
+                pr[key] = [float(-1 if w < 0 else int(np.ceil(w))) for w in pr[key]]
     return pr
 
 
@@ -138,6 +161,8 @@ def run(ck):
             ck.count('geom', pr['geom'])
             ck.count('points', pr['style'])
             ck.count('weights', pr['wmode'])
+            ck.count('dtypes(coords,weights)', tuple(getattr(d, '__name__', 'float64') for d in pr.get('dtypes', (None, None))))
+            ck.count('log2_scale', pr.get('log2scale', 0))
             ck.count('n', min(pr['n'], 10) if pr['n'] < 10 else (pr['n'] // 10) * 10)
             ck.count('impl_result', ['returned', 'NotEnoughPoints', 'ValueError', 'SingularMatrix'][code])
             nontrivial = code == 0 and pr['n'] > G.MINOBJ[pr['geom']] and pr['stream'] != 'malformed'
@@ -149,7 +174,7 @@ def run(ck):
     for i in bad:
         pr, iterative, code, eff = meta[i]
         shown = ck.last_shown.get(i, '')
-        if code == 0 and 'ESingular' in shown.split('\n')[0] and pr['geom'] == 'general':
+        if code == 0 and 'ESingular' in shown.split('\n')[0]:
             # exactly degenerate input accepted by the implementation: outside C06's domain (non-degenerate
             # points); whether it must raise is decided by C17 (known finding K1)
             ck.discard('degenerate input not rejected by implementation (C17 domain)')
